@@ -289,10 +289,16 @@ def firstBadCode (T : Tab) : Option Nat :=
 
 /-! ### tables of sequences (`@apply_to_npdataclass("sequence")`, `bnp.replace`, lazy file-backed tables) -/
 
-/-- a table of entries as the sequence functions see it. `file` = the columns as parsed from the buffer
-(or the constructor arguments of an in-memory table), `sets` = the replacement dictionary of a lazy
-table (`_set_values`; empty for a table that was never touched) -/
+/-- what a table operation raises (`AssertionError`: a column of another length; `IndexError`: a row index outside the
+table / a code outside the lookup table; `EncodingError`; a column that does not exist) -/
+inductive PErr | assertion | index | encoding | noColumn
+  deriving DecidableEq, Repr
+
+/-- a table of entries as the sequence functions see it. `n` = `len(table)`, `file` = the columns as parsed from the
+buffer (or the constructor arguments of an in-memory table), `sets` = the replacement dictionary of a lazy table
+(`_set_values`; empty for a table that was never touched) -/
 structure Table where
+  n : Nat
   file : List (String × List Bytes)
   sets : List (String × List Bytes)
 
@@ -302,56 +308,106 @@ def Table.get (t : Table) (k : String) : Option (List Bytes) :=
   | some v => some v
   | none => t.file.lookup k
 
-/-- `bnp.replace(table, k=v)` (`__replace__`): `new_dict = dict(self._set_values); new_dict.update(k=v)` -
-the NEW value wins over an earlier replacement of the same column; the other columns are kept -/
-def Table.replace (t : Table) (k : String) (v : List Bytes) : Table :=
-  { t with sets := (k, v) :: t.sets.filter (fun p => p.1 != k) }
+/-- `bnp.replace(table, k=v)` (`__replace__`): a column of another length than the table is refused (lazy table:
+`len(value) != len(self)` → `dataclasses.replace(self.get_data_object(), …)` → the data class asserts equal lengths; an
+in-memory table asserts directly); otherwise `new_dict = dict(self._set_values); new_dict.update(k=v)` - the NEW value
+wins over an earlier replacement of the same column; the other columns are kept -/
+def Table.replace (t : Table) (k : String) (v : List Bytes) : Except PErr Table :=
+  if v.length = t.n then .ok { t with sets := (k, v) :: t.sets.filter (fun p => p.1 != k) }
+  else .error .assertion
 
-/-- `x[idx]` for an index list, row-wise (out-of-range: not modelled, empty row) -/
+/-- `x[idx]` for an index list whose entries are all in range (the callers test that first) -/
 def selRows (p : List Nat) (rows : List Bytes) : List Bytes := p.map (fun i => rows.getD i [])
 
-/-- an operation applied to every column (`table[idx]`, `np.concatenate([table[:k], table[k:]])`) -/
-def Table.mapCols (f : List Bytes → List Bytes) (t : Table) : Table :=
-  ⟨t.file.map (fun p => (p.1, f p.2)), t.sets.map (fun p => (p.1, f p.2))⟩
+/-- an operation applied to every column, giving a table of `n'` rows -/
+def Table.mapCols (n' : Nat) (f : List Bytes → List Bytes) (t : Table) : Table :=
+  ⟨n', t.file.map (fun p => (p.1, f p.2)), t.sets.map (fun p => (p.1, f p.2))⟩
 
 /-- one step of user code between / around the sequence functions -/
 inductive PStep where
   | rc | translate | replace (rows : List Bytes) | same | idx (p : List Nat) | concat (k : Nat)
 
 /-- `apply_to_npdataclass("sequence")(f)(table) = replace(table, sequence=f(table.sequence))` -/
-def Table.applySeq (f : List Bytes → Option (List Bytes)) (t : Table) : Option Table :=
+def Table.applySeq (f : List Bytes → Except PErr (List Bytes)) (t : Table) : Except PErr Table :=
   match t.get "sequence" with
-  | none => none
+  | none => .error .noColumn
   | some s => match f s with
-    | none => none
-    | some r => some (t.replace "sequence" r)
+    | .error e => .error e
+    | .ok r => t.replace "sequence" r
 
-def pipeStep (T : Tab) (tab : List Nat) (t : Table) : PStep → Option Table
-  | .rc => t.applySeq (revcompRagged T)
-  | .translate => t.applySeq (fun s => (translateRows tab s).toOption)
-  | .replace r => some (t.replace "sequence" r)
-  | .same => t.applySeq some
-  | .idx p => some (t.mapCols (selRows p))
-  | .concat k => some (t.mapCols (fun v => v.take k ++ v.drop k))
+def trErr : TrErr → PErr
+  | .encoding => .encoding
+  | .assertion => .assertion
+  | .index => .index
+
+def pipeStep (T : Tab) (tab : List Nat) (t : Table) : PStep → Except PErr Table
+  | .rc => t.applySeq (fun s => match revcompRagged T s with
+      | some r => .ok r
+      | none => .error .index)
+  | .translate => t.applySeq (fun s => match translateRows tab s with
+      | .ok r => .ok r
+      | .error e => .error (trErr e))
+  | .replace r => t.replace "sequence" r
+  | .same => t.applySeq .ok
+  | .idx p => if p.all (fun i => i < t.n) then .ok (t.mapCols p.length (selRows p)) else .error .index
+  | .concat k => .ok (t.mapCols t.n (fun v => v.take k ++ v.drop k))
 
 /-- all stages of a pipeline, the start table first (every stage stays readable afterwards) -/
-def runPipe (T : Tab) (tab : List Nat) : Table → List PStep → Option (List Table)
-  | t, [] => some [t]
+def runPipe (T : Tab) (tab : List Nat) : Table → List PStep → Except PErr (List Table)
+  | t, [] => .ok [t]
   | t, s :: ss =>
     match pipeStep T tab t s with
-    | none => none
-    | some t' => (runPipe T tab t' ss).map (fun rest => t :: rest)
+    | .error e => .error e
+    | .ok t' => match runPipe T tab t' ss with
+      | .error e => .error e
+      | .ok rest => .ok (t :: rest)
 
-/-- the property's reading of one step, on the `sequence` column alone -/
+/-- the property's reading of one step, on the `sequence` column alone (`none` = outside the domain: a column of
+another length, a row index outside the table, a codon outside the genetic code) -/
 def specStepSeq (rows : List Bytes) : PStep → Option (List Bytes)
   | .rc => some (rows.map specRevComp)
   | .translate => omap specTranslate rows
-  | .replace r => some r
+  | .replace r => if r.length = rows.length then some r else none
   | .same => some rows
-  | .idx p => some (selRows p rows)
+  | .idx p => if p.all (fun i => i < rows.length) then some (selRows p rows) else none
   | .concat _ => some rows
 
+/-- … and on the `name` column: only a row selection changes it -/
+def specStepNames (names : List Bytes) : PStep → List Bytes
+  | .idx p => selRows p names
+  | _ => names
+
+/-- the property's reading of a pipeline: names and sequence column stage by stage -/
+def specStages : List Bytes → List Bytes → List PStep → Option (List (List Bytes × List Bytes))
+  | n, r, [] => some [(n, r)]
+  | n, r, s :: ss =>
+    match specStepSeq r s with
+    | none => none
+    | some r' => (specStages (specStepNames n s) r' ss).map (fun rest => (n, r) :: rest)
+
 /-! ### derived interval objects (`GenomicIntervals`: the rows and the KIND flag `is_stranded`) -/
+
+/-- what a method that rebuilds the object passes as `is_stranded`, as a function of the object's own flag:
+`onT` = the result's flag for a stranded object, `onF` = for an unstranded one. `self._is_stranded` is ⟨true, false⟩;
+leaving the argument out (constructor default `False`) is ⟨false, false⟩ -/
+structure Flag where
+  onT : Bool
+  onF : Bool
+  deriving DecidableEq, Repr
+
+def Flag.apply (f : Flag) (b : Bool) : Bool := if b then f.onT else f.onF
+def Flag.keep : Flag := ⟨true, false⟩
+
+/-- the flag behaviour of the five derivations (tabulated from the running code into `Gen.C14.giFlags`) -/
+structure GFlags where
+  clip : Flag
+  idx : Flag
+  replace : Flag
+  concat : Flag
+  windows : Flag
+  deriving DecidableEq, Repr
+
+def GFlags.keep : GFlags := ⟨.keep, .keep, .keep, .keep, .keep⟩
 
 structure GI where
   ivs : List Iv
@@ -363,18 +419,24 @@ inductive GStep where
 def clipIv (sizes : List Nat) (iv : Iv) : Iv :=
   { iv with stop := min (sizes.getD iv.chrom 0) iv.stop }
 
-/-- `clip()`, `gi[idx]`, `bnp.replace(gi, start=gi.start)`, `np.concatenate([gi[:k], gi[k:]])`: all of them rebuild the
-object with `self._is_stranded` -/
-def GI.step (g : GI) : GStep → GI
-  | .clip sizes => { g with ivs := g.ivs.map (clipIv sizes) }
-  | .idx p => { g with ivs := p.map (fun i => g.ivs.getD i ⟨0, 0, 0, 43⟩) }
-  | .replaceSame => g
-  | .concat k => { g with ivs := g.ivs.take k ++ g.ivs.drop k }
+/-- `clip()`, `gi[idx]`, `bnp.replace(gi, start=gi.start)`, `np.concatenate([gi[:k], gi[k:]])`: each rebuilds the object
+by a constructor call `GenomicIntervalsFull(rows, genome_context, <flag>)`; an index outside the object raises -/
+def GI.step (F : GFlags) (g : GI) : GStep → Option GI
+  | .clip sizes => some ⟨g.ivs.map (clipIv sizes), F.clip.apply g.stranded⟩
+  | .idx p => if p.all (fun i => i < g.ivs.length) then some ⟨p.map (fun i => g.ivs.getD i ⟨0, 0, 0, 43⟩), F.idx.apply g.stranded⟩
+              else none
+  | .replaceSame => some ⟨g.ivs, F.replace.apply g.stranded⟩
+  | .concat k => some ⟨g.ivs.take k ++ g.ivs.drop k, F.concat.apply g.stranded⟩
 
-/-- `GenomicLocation.get_windows(flank)`: `[p - flank, p + flank + 1)` clipped to the chromosome; strandedness of the
-locations is handed on -/
-def windows (sizes : List Nat) (flank : Nat) (locs : List (Nat × Nat × Nat)) (stranded : Bool) : GI :=
-  GI.step ⟨locs.map (fun l => ⟨l.1, l.2.1 - flank, l.2.1 + flank + 1, l.2.2⟩), stranded⟩ (.clip sizes)
+def runG (F : GFlags) : GI → List GStep → Option GI
+  | g, [] => some g
+  | g, s :: ss => match GI.step F g s with
+    | none => none
+    | some g' => runG F g' ss
+
+/-- `GenomicLocation.get_windows(flank)`: `[p - flank, p + flank + 1)` clipped to the chromosome -/
+def windows (F : GFlags) (sizes : List Nat) (flank : Nat) (locs : List (Nat × Nat × Nat)) (stranded : Bool) : GI :=
+  ⟨(locs.map (fun l => (⟨l.1, l.2.1 - flank, l.2.1 + flank + 1, l.2.2⟩ : Iv))).map (clipIv sizes), F.windows.apply stranded⟩
 
 /-- `genomic_sequence[gi]` (`GenomicData.__getitem__`): stranded extraction iff the interval object says so -/
 def getitem (T : Tab) (seqs : List (List Nat)) (g : GI) : Option (List (List Nat)) :=
